@@ -91,6 +91,8 @@ pub enum PoAct {
     ResetStorm(u8),
     /// a non-contributing message on every one of the 16 channels
     TouchAll,
+    /// CC 99 = 1 on each of the 15 other channels: many channels hold progress at once
+    ProgressAll,
     Reset,
     ResetProbe,
 }
@@ -710,6 +712,9 @@ impl System for PollSys {
             }
         }
         out.push(PoAct::TouchAll);
+        if depth <= 1 && self.report.reset {
+            out.push(PoAct::ProgressAll);
+        }
         out.push(PoAct::Reset);
         out.push(PoAct::ResetProbe);
         for &(c, v) in &self.probes {
@@ -732,10 +737,10 @@ impl System for PollSys {
         self.key_inner(s)
     }
     fn n_classes(&self) -> usize {
-        12
+        13
     }
     fn class_name(&self, i: usize) -> String {
-        ["feed-contributing-cc", "feed-cc-probe(concretisation)", "feed-other(expanded)", "feed-must-be-transparent", "poll", "tick-1ms", "reset", "reset-probe", "long-pause", "reset-storm", "touch-all-16-channels", "pumped-cycle"][i].to_string()
+        ["feed-contributing-cc", "feed-cc-probe(concretisation)", "feed-other(expanded)", "feed-must-be-transparent", "poll", "tick-1ms", "reset", "reset-probe", "long-pause", "reset-storm", "touch-all-16-channels", "pumped-cycle", "progress-on-15-other-channels"][i].to_string()
     }
     fn class_of(&self, a: &PoAct) -> usize {
         match a {
@@ -751,6 +756,7 @@ impl System for PollSys {
             PoAct::ResetStorm(_) => 9,
             PoAct::TouchAll => 10,
             PoAct::Pump(_) => 11,
+            PoAct::ProgressAll => 12,
         }
     }
     fn render(&self, a: &PoAct) -> String {
@@ -770,6 +776,7 @@ impl System for PollSys {
             PoAct::Pause(i) => format!("pause:{}", self.pauses[*i as usize]),
             PoAct::ResetStorm(i) => format!("resetstorm:{}:{}", self.storms[*i as usize].0, self.storms[*i as usize].1),
             PoAct::TouchAll => "touchall".to_string(),
+            PoAct::ProgressAll => "progressall".to_string(),
             PoAct::Pump(i) => {
                 let n = self.pump_cycles.len();
                 let (reps, c) = if (*i as usize) < n { (self.pump_reps, &self.pump_cycles[*i as usize]) } else { (70_000, &self.pump_cycles[*i as usize - n]) };
@@ -800,6 +807,7 @@ impl System for PollSys {
                     format!("for _ in 0..{} {{ scanner.reset(); }}", n)
                 }
             }
+            PoAct::ProgressAll => format!("for c in 0..16 {{ if c != {} {{ scanner.feed(&helgoboss_midi::test_util::control_change(c, 99, 1)); }} }}", self.ch),
             PoAct::TouchAll => "for c in 0..16 { scanner.feed(&helgoboss_midi::test_util::note_on(c, 1, 1)); scanner.feed(&helgoboss_midi::test_util::control_change(c, 7, 1)); }".to_string(),
             PoAct::Pump(i) => {
                 let n = self.pump_cycles.len();
@@ -887,6 +895,16 @@ impl PollSys {
                 } else {
                     self.pump(s, &self.pump_cycles[*i as usize - n], 70_000)
                 }
+            }
+            PoAct::ProgressAll => {
+                self.clock(s.now);
+                let mut sc = s.sc;
+                for c in 0..16u8 {
+                    if c != self.ch {
+                        let _ = sc.feed_msg(&raw(0xB0 | c, 99, 1));
+                    }
+                }
+                Step { strict: true, next: Some(PoState { sc, now: s.now, ob: s.ob }), obs: 0, violations: Vec::new() }
             }
             PoAct::TouchAll => {
                 self.clock(s.now);
@@ -1070,11 +1088,8 @@ fn run_observer(chk: &xs::Check, tier: xs::Tier, pid: &'static str, report: PRep
 ///  * 1 s on 250 ms ticks: `as_secs() > 0`, where whole-second shortcuts start to apply.
 fn run_timeout_classes(chk: &xs::Check, pid: &'static str, report: PReport) {
     use xs::{engine, Limits};
-    let mut classes: Vec<(u64, u64)> = vec![(1_000_000_000, 250_000_000)];
-    if report.c13 {
-        classes.push((500, 250));
-        classes.push((1500, 500));
-    }
+    let _ = report.c13;
+    let classes: Vec<(u64, u64)> = vec![(1_000_000_000, 250_000_000), (500, 250), (1500, 500)];
     for (ns, tick_ns) in classes {
         let mut sys = PollSys::new(pid, 0, 1, 1, &[0, 1, 127], false, report).with_timeout_ns(ns, tick_ns);
         sys.storms = vec![(256, false)];
